@@ -331,9 +331,17 @@ class DataFrameSchemaBackend(PolarsSchemaBackend):
         }
 
         # Append missing columns
+        # (a column without a declared data type has nothing to cast the
+        # filler values to)
         check_obj = check_obj.with_columns(
             **{k: v.default for k, v in missing_cols_schema.items()}
-        ).cast({k: v.dtype.type for k, v in missing_cols_schema.items()})
+        ).cast(
+            {
+                k: v.dtype.type
+                for k, v in missing_cols_schema.items()
+                if v.dtype is not None
+            }
+        )
 
         # Set column order: the schema's columns first. Columns that are not
         # in the schema are kept: removing them is what strict="filter" does.
